@@ -9,7 +9,6 @@ import functools
 import itertools
 
 import numpy as np
-import scipy.sparse as sp
 
 
 # ------------------------------------------------------------------------------------ sites and lattices
@@ -75,11 +74,11 @@ class Ref:
         self.index = {tuple(int(v) for v in row): i for i, row in enumerate(lat.order)}
         self.open = [bool(b) for b in lat.bc]
         self.cells = range(first // self.N - 2, (first + self.n) // self.N + 3) if not self.finite else [0]
-        self.H = sp.csr_matrix((self.D, self.D), dtype=complex)
+        self.H = np.zeros((self.D, self.D), complex)
         self.max_range = 0  # of all terms of the model (also those not fitting into the window)
         self.jw_between = False  # some term needs a JW string on a site on which it has no operator
         self.exp = self.explicit_string = False
-        self._full = {}
+        self._local = {}
 
     # ---- geometry
     def site_index(self, x, u):
@@ -110,37 +109,44 @@ class Ref:
         return shape, [(x, tuple((x[a] + lo[a]) % shape[a] for a in range(len(Ls)))) for x in itertools.product(*ranges)]
 
     # ---- operators on the window
-    def _mat(self, k, name):
-        return sp.csr_matrix(self.sites[k].get_op(name).to_ndarray())
+    def local(self, k, name):
+        if (k, name) not in self._local:
+            self._local[k, name] = self.sites[k].get_op(name).to_ndarray()
+        return self._local[k, name]
 
-    def kron(self, names):
-        """Kronecker product of the operators `names[k]` (None = identity) on the window sites."""
-        return functools.reduce(lambda a, b: sp.kron(a, b, format='csr'),
-                                [sp.identity(self.dims[k], format='csr') if nm is None else self._mat(k, nm) for k, nm in enumerate(names)])
-
-    def full(self, name, k):
-        if (name, k) not in self._full:
-            jw = self.sites[k].op_needs_JW(name)
-            self._full[name, k] = self.kron([('JW' if jw else None) for _ in range(k)] + [name] + [None] * (self.n - k - 1))
-        return self._full[name, k]
+    def kron(self, mats):
+        """Kronecker product of one matrix per window site (None = identity)."""
+        return functools.reduce(np.kron, [np.eye(self.dims[k]) if m is None else m for k, m in enumerate(mats)])
 
     def inside(self, idx):
         return all(self.first <= i < self.first + self.n for i in idx)
 
     def product(self, strength, ops, plus_hc=False):
-        """Add strength * OP_0 OP_1 ... (the first acts last; ops = [(name, MPS index)]) if all sites exist."""
+        """Add strength * OP_0 OP_1 ... (the first acts last; ops = [(name, MPS index)]) if all sites exist.
+
+        A fermionic operator on site i stands for JW (x) ... (x) JW (x) op_i (x) 1 ...; the product of such
+        Kronecker products is the Kronecker product of the products on each site, taken in the given order."""
         idx = [i for _, i in ops]
         if any(i is None for i in idx) or strength == 0:
             return
-        self.max_range = max(self.max_range, max(idx) - min(idx))
         ms = self.lat.mps_sites()
+        lo, hi = min(idx), max(idx)
+        fac = {}  # site -> product of the factors of all operators on that site
+        for nm, i in ops:
+            s = ms[i % self.N]
+            for j in range(lo, i + 1) if s.op_needs_JW(nm) else [i]:
+                m = ms[j % self.N].get_op(nm if j == i else 'JW').to_ndarray()
+                fac[j] = m if j not in fac else fac[j] @ m
+        if any(not np.any(m) for m in fac.values()):
+            return  # (e.g. C C on one site: no term)
+        self.max_range = max(self.max_range, hi - lo)
         parity = False
-        for i in range(min(idx), max(idx)):  # parity of the fermionic operators on sites <= i
+        for i in range(lo, hi):  # parity of the fermionic operators on sites <= i
             parity ^= bool(sum(ms[j % self.N].op_needs_JW(nm) for nm, j in ops if j == i) % 2)
             self.jw_between |= parity and (i + 1) not in idx
         if self.inside(idx):
-            M = functools.reduce(lambda a, b: a @ b, [self.full(nm, i - self.first) for nm, i in ops]) * strength
-            self.H = self.H + (M + M.conj().T if plus_hc else M)
+            M = strength * self.kron([fac.get(self.first + k) for k in range(self.n)])
+            self.H += M + M.conj().T if plus_hc else M
 
     def literal(self, strength, idx, ops, op_string, plus_hc=False):
         """Add strength * ops[0]_i (x) op_string[0] ... (x) ops[1]_j ... exactly as given (no JW handling)."""
@@ -149,15 +155,15 @@ class Ref:
         self.max_range = max(self.max_range, idx[-1] - idx[0])
         self.explicit_string |= any(s != 'Id' for s in op_string)
         for c in self.cells:
-            sh = [i + c * self.N for i in idx]
-            if self.inside(sh):
+            sh = [i + c * self.N - self.first for i in idx]
+            if all(0 <= k < self.n for k in sh):
                 names = [None] * self.n
                 for a, b, s in zip(sh, sh[1:], op_string):
-                    names[a - self.first + 1:b - self.first] = [s] * (b - a - 1)
-                for i, nm in zip(sh, ops):
-                    names[i - self.first] = nm
-                M = self.kron(names) * strength
-                self.H = self.H + (M + M.conj().T if plus_hc else M)
+                    names[a + 1:b] = [s] * (b - a - 1)
+                for k, nm in zip(sh, ops):
+                    names[k] = nm
+                M = strength * self.kron([None if nm is None else self.local(k, nm) for k, nm in enumerate(names)])
+                self.H += M + M.conj().T if plus_hc else M
 
     # ---- the generators
     def add(self, call):
@@ -220,7 +226,7 @@ class Ref:
             raise ValueError(kind)
 
     def dense(self):
-        return self.H.toarray()
+        return self.H
 
 
 def apply_call(model, call):
@@ -268,30 +274,36 @@ def place(mat, dims, i, k):
 
 def termlist_dense(term_list, sites, first, n, finite):
     """Evaluate a TermList on the window.  The list does not store operator strings: between the operators of
-    a term there is 'JW' exactly on those sites which have an odd number of fermionic operators to their left."""
+    a term there is 'JW' exactly on those sites which have an odd number of fermionic (parity-odd) operators to
+    their left."""
     N = len(sites)
     ws = [sites[i % N] for i in range(first, first + n)]
-    dims = [s.dim for s in ws]
-    D = int(np.prod(dims))
-    H = sp.csr_matrix((D, D), dtype=complex)
+    H = np.zeros((int(np.prod([s.dim for s in ws])),) * 2, complex)
     cells = [0] if finite else range(first // N - 2, (first + n) // N + 3)
+    ops = {}
+
+    def op(k, name):
+        if (k % N, name) not in ops:
+            m, jw = sites[k % N].get_op(name).to_ndarray(), sites[k % N].get_op('JW').to_ndarray()
+            ops[k % N, name] = m, bool(np.any(m) and np.allclose(jw @ m @ jw, -m))
+        return ops[k % N, name]
+
     for term, strength in term_list:
         term = sorted(term, key=lambda t: t[1])
         for c in cells:
             idx = [i + c * N - first for _, i in term]
             if not all(0 <= k < n for k in idx):
                 continue
-            mats = [sp.identity(d, format='csr') for d in dims]
+            mats = [np.eye(s.dim) for s in ws]
             parity = False
-            for (op, _), k, k_next in zip(term, idx, idx[1:] + [None]):
-                m, jw = ws[k].get_op(op).to_ndarray(), ws[k].get_op('JW').to_ndarray()
-                mats[k] = sp.csr_matrix(m)
-                parity ^= bool(np.abs(m).max() > 0 and np.allclose(jw @ m @ jw, -m))  # a fermionic (parity-odd) operator
+            for (name, _), k, k_next in zip(term, idx, idx[1:] + [None]):
+                mats[k], odd = op(k + first, name)
+                parity ^= odd
                 if parity and k_next is not None:
                     for j in range(k + 1, k_next):
-                        mats[j] = sp.csr_matrix(ws[j].get_op('JW').to_ndarray())
-            H = H + strength * functools.reduce(lambda a, b: sp.kron(a, b, format='csr'), mats)
-    return H.toarray()
+                        mats[j] = op(j + first, 'JW')[0]
+            H += strength * functools.reduce(np.kron, mats)
+    return H
 
 
 def mpo_dense(H, first=0, n=None):
@@ -303,7 +315,7 @@ def mpo_dense(H, first=0, n=None):
         if T is None:
             T = W[H.get_IdL(i)]
         else:
-            T = np.einsum('aij,abkl->bikjl', T, W).reshape(W.shape[1], T.shape[1] * W.shape[2], T.shape[2] * W.shape[3])
+            T = np.tensordot(T, W, axes=(0, 0)).transpose(2, 0, 3, 1, 4).reshape(W.shape[1], T.shape[1] * W.shape[2], T.shape[2] * W.shape[3])
     T = T[H.get_IdR(first + n - 1)]
     return T + T.conj().T if H.explicit_plus_hc else T
 
@@ -333,14 +345,14 @@ def bonds_dense(H_bond, sites, first, n, finite):
     return H
 
 
+def pipe_perm(pipe):
+    """Index in the LegPipe of every Kronecker basis state of its incoming legs."""
+    return np.array([pipe.map_incoming_flat(t) for t in itertools.product(*[range(l.ind_len) for l in pipe.legs])])
+
+
 def unfold(H, sites):
     """Matrix in the basis of (grouped) `sites` -> Kronecker basis of the constituent sites."""
-    perms = []
-    for s in sites:
-        if hasattr(s, 'n_sites'):
-            perms.append(np.array([s.leg.map_incoming_flat(t) for t in itertools.product(*[range(t.dim) for t in s.sites])]))
-        else:
-            perms.append(np.arange(s.dim))
+    perms = [pipe_perm(s.leg) if hasattr(s, 'n_sites') else np.arange(s.dim) for s in sites]
     d = [len(p) for p in perms]
     return H.reshape(d + d)[np.ix_(*(perms * 2))].reshape(H.shape)
 
